@@ -202,3 +202,88 @@ def lens_accelerated(S):
                S1=Smat[0], S2=Smat[1], S3=Smat[2], S4=Smat[3])
     S.claim_eq('integrand_l', il, eval(Lens.numexpr_integrandl, {'__builtins__': {}}, ns2))
     S.claim_eq('integrand_r', ir, eval(Lens.numexpr_integrandr, {'__builtins__': {}}, ns2))
+
+
+from props import mlcommon as mc  # noqa
+from holopy.scattering.theory.mielens import MieLens, AberratedMieLens  # noqa
+from props.C05 import _rotation_body  # noqa
+
+
+@obligation('C08.polarization_direction.mielens', functions=mc.ML_FUNCS, stubs=mc.ML_STUBS, angle_mode='atoms',
+            timeout_s=120, nvalid=2,
+            bounds='necessary condition for "same field as the numerical wrapper for every polarization direction": '
+                   'the analytic theory is covariant under a joint rotation of detector point and polarization by any '
+                   'angle (1 symbolic point, all polarization angles)')
+def pol_direction_mielens(S):
+    _rotation_body(S, 1)
+
+
+@obligation('C08.large_rho_cutoff', functions=[MLF + 'MieLensCalculator.calculate_scattered_field'],
+            stubs=['_eval_mielens_i_n := uninterpreted'], max_paths=16, nvalid=3,
+            bounds='calculators with quad_npts 60, 100 and 160 and one symbolic k rho in [0, 1000]: the field is the '
+                   'small-rho expression iff k rho < 3.9*quad_npts (the cutoff follows the quadrature order), zero beyond')
+def large_rho_cutoff(S):
+    _setup(S)
+    krho = S.real('krho', lo=0, hi=1000)
+    phi = S.angle('phi', 0, 2)
+    I0, I2 = S.cfunc('I0', 1), S.cfunc('I2', 1)
+    for npts in (60, 100, 160):
+        calc = MieLensCalculator.__new__(MieLensCalculator)
+        calc.quad_npts = npts
+        calc._eval_mielens_i_n = lambda k, n=0: np.array([(I0 if n == 0 else I2)(v) for v in np.asarray(k).reshape(-1)],
+                                                         dtype=object if S.sym else complex)
+        ex, ey = calc.calculate_scattered_field(np.array([krho], dtype=object if S.sym else float),
+                                                np.array([phi], dtype=object if S.sym else float))
+        inside = krho < 3.9 * npts
+        ref_x = 0.5 * (I0(krho) + I2(krho) * np.cos(2 * phi))
+        ref_y = 0.5 * I2(krho) * np.sin(2 * phi)
+        if bool(inside):
+            S.claim_eq(f'npts{npts}.small_rho_x', ex[0], ref_x)
+            S.claim_eq(f'npts{npts}.small_rho_y', ey[0], ref_y)
+        else:
+            S.claim_eq(f'npts{npts}.beyond_cutoff_x', ex[0], 0)
+            S.claim_eq(f'npts{npts}.beyond_cutoff_y', ey[0], 0)
+    S.observe('krho', krho)
+
+
+@obligation('C08.lens.scattering_matrix_layout', functions=[LN + 'Lens._calc_scattering_matrix'], nvalid=2,
+            stubs=['inner theory raw_scat_matrs := uninterpreted S(theta, phi)'],
+            bounds='Lens with 2 theta nodes and 3 phi nodes (unequal quadrature orders) and with 2x2: the matrices '
+                   'S1..S4 used in the integrand at node (theta_i, phi_j) are the conjugated inner-theory matrices '
+                   'evaluated at (theta_i, phi_j)')
+def lens_matrix_layout(S):
+    _setup(S)
+    Sfun = [[S.cfunc(f'S{a}{b}', 2) for b in range(2)] for a in range(2)]
+
+    class Inner:
+        def can_handle(self, s):
+            return True
+
+        def raw_scat_matrs(self, scatterer, pos, medium_wavevec, medium_index):
+            out = np.empty((pos.shape[1], 2, 2), dtype=object if S.sym else complex)
+            for i in range(pos.shape[1]):
+                for a in range(2):
+                    for b in range(2):
+                        out[i, a, b] = Sfun[a][b](pos[1, i], pos[2, i])
+            return out
+    for nt, nph in ((2, 3), (2, 2), (3, 2)):
+        lens = Lens.__new__(Lens)
+        lens.theory = Inner()
+        lens.quad_npts_theta, lens.quad_npts_phi = nt, nph
+        th = [S.real(f'th{nt}{nph}_{i}', lo=0, hi=1) for i in range(nt)]
+        ph = [S.real(f'ph{nt}{nph}_{j}', lo=0, hi=6) for j in range(nph)]
+        obj = object if S.sym else float
+        lens._theta_pts = np.array(th, dtype=obj).reshape(-1, 1, 1)
+        lens._phi_pts = np.array(ph, dtype=obj).reshape(1, -1, 1)
+        S1, S2, S3, S4 = lens._calc_scattering_matrix(None, 10.0, 1.33)
+        S.claim(f'{nt}x{nph}.shape', S1.shape == (nt, nph, 1))
+        if S1.shape != (nt, nph, 1):
+            continue
+        for i in range(nt):
+            for j in range(nph):
+                ref = [[np.conj(Sfun[a][b](th[i], ph[j])) for b in range(2)] for a in range(2)]
+                S.claim_eq(f'{nt}x{nph}.S1[{i},{j}]', S1[i, j, 0], ref[1][1])
+                S.claim_eq(f'{nt}x{nph}.S2[{i},{j}]', S2[i, j, 0], ref[0][0])
+                S.claim_eq(f'{nt}x{nph}.S3[{i},{j}]', S3[i, j, 0], ref[0][1])
+                S.claim_eq(f'{nt}x{nph}.S4[{i},{j}]', S4[i, j, 0], ref[1][0])
+    S.observe('th', th[0])
